@@ -160,3 +160,244 @@ Proof.
   destruct (Z.eq_dec f (K s)) as [->|HfK]; [apply K_seps; lia|].
   apply not_dir_sep_false. apply Hs. lia.
 Qed.
+
+(* ---- stem and extension ----------------------------------------------------------- *)
+Lemma firstn_length_app : forall {A} (x y : list A), firstn (length x) (x ++ y) = x.
+Proof. induction x; intros; cbn; [reflexivity|now rewrite IHx]. Qed.
+
+Lemma skipn_length_app : forall {A} (x y : list A), skipn (length x) (x ++ y) = y.
+Proof. induction x; intros; cbn; [reflexivity|apply IHx]. Qed.
+
+Lemma str_eqb_length : forall a b, str_eqb a b = true -> length a = length b.
+Proof. intros a b H. apply str_eqb_eq in H. now subst. Qed.
+
+Lemma strncmp_eq_spec : forall lit s b, 0 <= b -> b + slen lit <= slen s ->
+  strncmp_eq s b lit = Ok (str_eqb (slice s b (b + slen lit)) lit).
+Proof.
+  induction lit as [|c t IH]; intros s b Hb Hl.
+  - cbn [strncmp_eq]. rewrite slen_nil, Z.add_0_r, slice_nil. reflexivity.
+  - rewrite slen_cons in *. pose proof (slen_nonneg t).
+    cbn [strncmp_eq]. rewrite rdr_ok by lia. cbn [bind].
+    rewrite slice_first by lia. cbn [str_eqb].
+    destruct (znth s b =? c) eqn:E; [|reflexivity]. cbn [andb].
+    rewrite IH by lia. do 3 f_equal. lia.
+Qed.
+
+Lemma ranges_equal_lit_spec : forall s b e lit, 0 <= b <= e -> e <= slen s ->
+  ranges_equal_lit s (b, e) lit = Ok (str_eqb (slice s b e) lit).
+Proof.
+  intros s b e lit Hb He. unfold ranges_equal_lit, rbegin, rend. cbn [fst snd].
+  destruct (e - b =? slen lit - 0) eqn:E1.
+  - destruct (e - b =? 0) eqn:E2.
+    + assert (lit = []) by (apply slen_0_nil; lia). subst lit.
+      assert (b = e) by lia. subst. now rewrite slice_nil.
+    + rewrite strncmp_eq_spec by lia. do 3 f_equal. lia.
+  - destruct (str_eqb (slice s b e) lit) eqn:E; [|reflexivity].
+    apply str_eqb_length in E. pose proof (slice_length s b e Hb He). unfold slen in E1. lia.
+Qed.
+
+Lemma not_dot_true : forall c, not_dot c = true -> is_dot c = false.
+Proof. intros c. unfold not_dot, is_dot. now destruct (c =? 46). Qed.
+
+Lemma not_dot_false : forall c, not_dot c = false -> c = 46.
+Proof. intros c. unfold not_dot. lia. Qed.
+
+Lemma ext_cut_special : forall n, str_eqb n [46] || str_eqb n [46; 46] = true -> ext_cut n = length n.
+Proof. intros n H. unfold ext_cut. now rewrite H. Qed.
+
+Lemma ext_cut_last : forall n x y,
+  str_eqb n [46] || str_eqb n [46; 46] = false -> n = x ++ 46 :: y -> nodot y -> x <> [] ->
+  ext_cut n = length x.
+Proof.
+  intros n x y H -> Hy Hx. unfold ext_cut. rewrite H, (last_dot_app x y Hy).
+  destruct x; [contradiction|reflexivity].
+Qed.
+
+Lemma ext_cut_nodot_tail : forall c y, nodot y -> ext_cut (c :: y) = length (c :: y).
+Proof.
+  intros c y Hy. unfold ext_cut. destruct (_ || _); [reflexivity|].
+  cbn [last_dot]. rewrite (last_dot_none y Hy). destruct (is_dot c); reflexivity.
+Qed.
+
+Lemma stem_range_spec : forall s b e,
+  filename_range s = Ok (b, e) -> 0 <= b <= e -> e <= slen s ->
+  exists m, stem_range s = Ok (b, m) /\ b <= m <= e /\ (b < e -> b < m) /\
+            m - b = Z.of_nat (ext_cut (slice s b e)).
+Proof.
+  intros s b e Hfn Hb He.
+  pose proof (slice_length s b e Hb He) as Hnl.
+  unfold stem_range. rewrite Hfn. cbn [bind]. unfold is_empty_range, rbegin, rend. cbn [fst snd].
+  destruct (b =? e) eqn:Ebe.
+  { cbn [bind fst snd]. rewrite Ebe.
+    assert (b = e) by lia. subst e. exists b. split; [reflexivity|]. split; [lia|]. split; [lia|].
+    rewrite slice_nil. cbn. lia. }
+  assert (Hlt : b < e) by lia.
+  rewrite ranges_equal_lit_spec by lia. cbn [bind].
+  destruct (str_eqb (slice s b e) [46]) eqn:E1.
+  { cbn [bind fst snd]. rewrite Ebe. exists e. split; [reflexivity|]. split; [lia|]. split; [lia|].
+    rewrite ext_cut_special by now rewrite E1. lia. }
+  rewrite ranges_equal_lit_spec by lia. cbn [bind].
+  destruct (str_eqb (slice s b e) [46; 46]) eqn:E2.
+  { cbn [bind fst snd]. rewrite Ebe. exists e. split; [reflexivity|]. split; [lia|]. split; [lia|].
+    rewrite ext_cut_special by (rewrite E2; apply orb_true_r). lia. }
+  destruct (scan_down_spec not_dot 0 (fuel_of s) s b (e - 1)) as (r & Hr & Hrb & Ha & Hs);
+    try lia; [unfold fuel_of, slen in *; lia|].
+  rewrite Hr. cbn [bind fst snd].
+  assert (Hy : nodot (slice s (r + 1) e)).
+  { apply slice_forall; try lia. intros j Hj. apply not_dot_true.
+    replace j with (j - 0) by lia. apply Ha. lia. }
+  destruct (b =? r) eqn:Ebr.
+  - (* no dot after the first character: the stem is the whole name *)
+    assert (r = b) by lia. subst r.
+    exists e. split; [reflexivity|]. split; [lia|]. split; [lia|].
+    rewrite (slice_first s b e) by lia. rewrite ext_cut_nodot_tail by assumption.
+    rewrite <- slice_first by lia. lia.
+  - exists r. split; [reflexivity|]. split; [lia|]. split; [lia|].
+    assert (Hdot : znth s r = 46).
+    { apply not_dot_false. replace r with (r - 0) at 1 by lia. apply Hs. lia. }
+    rewrite (ext_cut_last (slice s b e) (slice s b r) (slice s (r + 1) e)).
+    + rewrite slice_length by lia. lia.
+    + now rewrite E1, E2.
+    + rewrite (slice_app s b r e) by lia. f_equal. rewrite (slice_first s r e) by lia. now rewrite Hdot.
+    + exact Hy.
+    + apply slice_nonempty; lia.
+Qed.
+
+Lemma extension_from_stem : forall s b m, stem_range s = Ok (b, m) ->
+  extension_range s = Ok (if b =? m then (b, m) else (m, slen s)).
+Proof.
+  intros s b m H. unfold extension_range. rewrite H. cbn [bind].
+  unfold is_empty_range, rbegin, rend. cbn [fst snd].
+  destruct (b =? m); [reflexivity|]. do 2 f_equal. lia.
+Qed.
+
+(* ---- parent path ------------------------------------------------------------------ *)
+Lemma has_root_dir_slice : forall s a b, 0 <= a < b -> b <= slen s ->
+  has_root_dir (slice s a b) = is_sep (znth s a).
+Proof. intros. rewrite slice_first by lia. reflexivity. Qed.
+
+(* the root path, as a path *)
+Lemma as_path_root : forall s,
+  as_path (slice s (Z.max (K s - 1) 0) (K s)) = (has_root_dir s, []).
+Proof.
+  intros s. pose proof (K_range s) as HK. unfold as_path. f_equal.
+  - rewrite (has_root_dir_K s). destruct (Z.eq_dec (K s) 0) as [E|E].
+    + rewrite E. cbn. reflexivity.
+    + rewrite has_root_dir_slice by lia. rewrite K_seps by lia. lia.
+  - apply elements_seps. apply seps_slice_K; lia.
+Qed.
+
+(* the general case: the result ends just behind the name character at l2 *)
+Lemma parent_general : forall s l2 q,
+  K s <= l2 -> is_sep (znth s l2) = false -> l2 + 1 < q -> q <= slen s ->
+  seps (slice s (l2 + 1) q) -> nosep (slice s q (slen s)) ->
+  as_path (slice s (Z.max (K s - 1) 0) (l2 + 1)) = std_parent_path s.
+Proof.
+  intros s l2 q HKl Hns Hq Hql HR HN. pose proof (K_range s) as HK.
+  set (m := l2 + 1) in *. set (p := Z.max (K s - 1) 0).
+  assert (Hel : elements (slice s (K s) m ++ slice s m q ++ slice s q (slen s)) =
+                elements (slice s (K s) m) ++ [slice s q (slen s)]).
+  { pose proof (elements_snoc (znth s (K s)) (slice s (K s + 1) m) (slice s (K s) (m - 1)) (znth s (m - 1))
+                  (slice s m q) (slice s q (slen s))) as H.
+    rewrite <- !slice_first in H by lia. apply H; try assumption.
+    - apply K_stop.
+    - apply slice_last; lia.
+    - unfold m. now replace (l2 + 1 - 1) with l2 by lia.
+    - apply slice_nonempty; lia. }
+  assert (Hs : elements s = elements (slice s (K s) m) ++ [slice s q (slen s)]).
+  { rewrite <- Hel. rewrite <- !slice_app by lia.
+    rewrite <- (elements_seps_app (slice s 0 (K s)) (slice s (K s) (slen s))) by (apply seps_slice_K; lia).
+    rewrite <- slice_app by lia. now rewrite slice_all. }
+  unfold std_parent_path, as_path. rewrite Hs, removelast_snoc. f_equal.
+  - rewrite has_root_dir_slice by lia. rewrite (has_root_dir_K s). unfold p.
+    destruct (Z.eq_dec (K s) 0) as [E|E].
+    + rewrite E. cbn [Z.max Z.sub Z.opp Z.add Z.compare]. cbn. rewrite <- E. apply K_stop.
+    + replace (Z.max (K s - 1) 0) with (K s - 1) by lia. rewrite K_seps by lia. lia.
+  - rewrite (slice_app s p (K s) m) by lia. apply elements_seps_app. apply seps_slice_K; lia.
+Qed.
+
+Lemma parent_path_range_spec : forall s,
+  exists b e, parent_path_range s = Ok (b, e) /\ 0 <= b <= e /\ e <= slen s /\
+              as_path (slice s b e) = std_parent_path s.
+Proof.
+  intros s. pose proof (slen_nonneg s) as Hlen. pose proof (K_range s) as HK.
+  unfold parent_path_range. destruct (slen s =? 0) eqn:E0.
+  { assert (s = []) by (apply slen_0_nil; lia). subst s. exists 0, 0. rewrite slice_nil.
+    split; [reflexivity|]. split; [lia|]. split; [lia|reflexivity]. }
+  rewrite root_path_range_eq. cbn [bind].
+  pose proof (rootr_begin s) as Hrb. pose proof (rootr_end s) as Hre.
+  destruct (rootr s) as [rb re] eqn:Hroot. unfold rbegin, rend in *. cbn [fst snd] in *.
+  set (p := Z.max (K s - 1) 0) in *.
+  assert (Hretroot : removelast (elements s) = [] ->
+            exists b e, Ok (rb, re) = Ok (b, e) /\ 0 <= b <= e /\ e <= slen s /\
+                        as_path (slice s b e) = std_parent_path s).
+  { intros Hrm. exists rb, re. split; [reflexivity|]. split; [lia|]. split; [lia|].
+    subst rb re. unfold p. rewrite as_path_root. unfold std_parent_path. now rewrite Hrm. }
+  rewrite rdr_ok by lia. cbn [bind]. rewrite is_dir_sep_eq.
+  (* the third loop and the general result, for both branches *)
+  assert (Hthird : forall l1 q, K s < l1 -> l1 <= slen s - 1 -> is_sep (znth s l1) = true ->
+            l1 < q <= slen s -> (forall j, l1 <= j < q -> is_sep (znth s j) = true) ->
+            nosep (slice s q (slen s)) ->
+            exists b e, (l2 <- scan_down is_dir_sep 0 (fuel_of s) s rb l1 ;; Ok (rb, rb + l2 + 1 - rb)) = Ok (b, e) /\
+                        0 <= b <= e /\ e <= slen s /\ as_path (slice s b e) = std_parent_path s).
+  { intros l1 q Hl1 Hl1' Hsep Hq HR HN.
+    destruct (scan_down_spec is_dir_sep 0 (fuel_of s) s rb l1) as (l2 & H2 & H2b & H2a & H2s);
+      try lia; [unfold fuel_of, slen in *; lia|].
+    rewrite H2. cbn [bind].
+    assert (HKl2 : K s <= l2).
+    { destruct (Z_lt_le_dec l2 (K s)) as [Hc|]; [|lia].
+      specialize (H2a (K s) ltac:(lia)). rewrite Z.sub_0_r, is_dir_sep_eq, K_stop in H2a. discriminate. }
+    assert (Hl2lt : l2 < l1).
+    { destruct (Z.eq_dec l2 l1) as [->|]; [|lia].
+      specialize (H2s ltac:(lia)). rewrite Z.sub_0_r, is_dir_sep_eq, Hsep in H2s. discriminate. }
+    assert (Hl2ns : is_sep (znth s l2) = false).
+    { destruct (Z_lt_le_dec rb l2) as [Hc|Hc].
+      - specialize (H2s Hc). now rewrite Z.sub_0_r, is_dir_sep_eq in H2s.
+      - assert (l2 = K s) by lia. subst l2. apply K_stop. }
+    exists rb, (rb + l2 + 1 - rb). split; [reflexivity|]. split; [lia|]. split; [lia|].
+    replace (rb + l2 + 1 - rb) with (l2 + 1) by lia. subst rb. unfold p.
+    apply (parent_general s l2 q); try assumption; try lia.
+    apply slice_forall; try lia. intros j Hj.
+    destruct (Z_lt_le_dec j l1) as [Hc|Hc]; [|apply HR; lia].
+    specialize (H2a j ltac:(lia)). now rewrite Z.sub_0_r, is_dir_sep_eq in H2a. }
+  destruct (is_sep (znth s (slen s - 1))) eqn:EL.
+  - (* the path ends with a separator *)
+    destruct (scan_down_spec is_dir_sep 1 (fuel_of s) s rb (slen s - 1)) as (l1 & H1 & H1b & H1a & H1s);
+      try lia; [unfold fuel_of, slen in *; lia|].
+    rewrite H1. cbn [bind].
+    assert (HT : forall j, l1 <= j < slen s -> is_sep (znth s j) = true).
+    { intros j Hj. destruct (Z.eq_dec j (slen s - 1)) as [->|]; [exact EL|].
+      specialize (H1a (j + 1) ltac:(lia)). rewrite is_dir_sep_eq in H1a.
+      now replace (j + 1 - 1) with j in H1a by lia. }
+    destruct (l1 <=? re) eqn:Ecmp.
+    + apply Hretroot.
+      assert (K s = slen s).
+      { destruct (Z.eq_dec (K s) (slen s)); [assumption|].
+        pose proof (K_stop s) as Q. rewrite HT in Q by lia. discriminate. }
+      rewrite elements_seps; [reflexivity|]. rewrite <- (slice_all s). apply seps_slice_K; lia.
+    + apply (Hthird l1 (slen s)); [lia|lia|apply HT; lia|lia| |].
+      * exact HT.
+      * rewrite slice_nil. constructor.
+  - (* the path ends with a name *)
+    destruct (scan_down_spec not_dir_sep 0 (fuel_of s) s rb (slen s - 1)) as (l1 & H1 & H1b & H1a & H1s);
+      try lia; [unfold fuel_of, slen in *; lia|].
+    rewrite H1. cbn [bind].
+    assert (HKlt : K s < slen s).
+    { destruct (Z.eq_dec (K s) (slen s)); [|lia].
+      rewrite K_seps in EL by lia. discriminate. }
+    assert (HN : forall j, l1 < j < slen s -> is_sep (znth s j) = false).
+    { intros j Hj. apply not_dir_sep_true. replace j with (j - 0) by lia. apply H1a. lia. }
+    destruct (l1 <=? re) eqn:Ecmp.
+    + apply Hretroot.
+      assert (HNs : nosep (slice s (K s) (slen s))).
+      { apply slice_forall; try lia. intros j Hj.
+        destruct (Z.eq_dec j (K s)) as [->|]; [apply K_stop|apply HN; lia]. }
+      rewrite <- (slice_all s). rewrite (slice_app s 0 (K s) (slen s)) by lia.
+      rewrite elements_seps_app by (apply seps_slice_K; lia).
+      rewrite elements_name; [reflexivity|exact HNs|apply slice_nonempty; lia].
+    + assert (Hsep : is_sep (znth s l1) = true).
+      { apply not_dir_sep_false. replace l1 with (l1 - 0) at 1 by lia. apply H1s. lia. }
+      apply (Hthird l1 (l1 + 1)); [lia|lia|exact Hsep|lia| |].
+      * intros j Hj. assert (j = l1) by lia. now subst.
+      * apply slice_forall; try lia. intros j Hj. apply HN. lia.
+Qed.
